@@ -907,3 +907,25 @@ def rule_restricted_args_checked(chk, rid, M=None):
     if traced_total[0] < 150:
         chk.fail_closed(rid, "only %d restricted argument values could be traced from `self.<field>.resolve(ctx)` (expected >= 150): the tracing no longer "
                              "matches the code" % traced_total[0])
+
+
+def argument_value_locals(facts, b, fld):
+    """locals of resolve body `b` that receive the result of `self.<fld>.resolve(ctx)`"""
+    starts = []
+    for bb, t in b.calls():
+        if not b.callee(t).endswith("compiler::expression::Expression::resolve") and "Expression>::resolve" not in b.callee(t):
+            continue
+        if not t["args"]:
+            continue
+        rl = op_local(t["args"][0])
+        chain = cfgq.ref_chain(b, rl) if rl is not None else []
+        hit = False
+        for x in chain:
+            for kind2, dbb, dsi, dx in b.defs().get(x, []):
+                if kind2 == "stmt":
+                    pl = dx["rv"].get("p") if dx["rv"]["k"] == "ref" else op_place(dx["rv"].get("op", {})) if dx["rv"]["k"] in ("use", "cast") else None
+                    if pl and pl["l"] == 1 and fld in [e2.get("f") for e2 in pl.get("p", []) if isinstance(e2, dict)]:
+                        hit = True
+        if hit:
+            starts.append(t["dest"]["l"])
+    return starts
